@@ -394,7 +394,7 @@ def _from_bytes(ip, fv, args, kwargs, pure):
             return int.from_bytes(bytes(b), order)
         except ValueError:
             raise Raise("ValueError")
-    t = Bt(b)
+    t = b.t if isinstance(b, SByteList) else Bt(b)      # int.from_bytes accepts any iterable of ints in 0..255
     if order == "little":
         t = sym.brev(t)
     elif order != "big":
